@@ -158,6 +158,7 @@ pub fn op(cfg: ProgCfg, nkeys: usize, nblobs: usize) -> BoxedStrategy<Op> {
     add(m.idx_find, k().prop_map(|key| Op::IdxFind { key }).boxed());
     add(m.idx_delete, k().prop_map(|key| Op::IdxDelete { key }).boxed());
     add(m.link_to, link_spec(nkeys, nblobs, cfg.wmix.bad_decls).prop_map(Op::LinkTo).boxed());
+    add(m.link_to.min(1), (0usize..4).prop_map(|target| Op::RemoveTarget { target }).boxed());
     add(
         m.abandon,
         (gen::write_spec(cfg.wmix, nkeys, nblobs), if cfg.wmix.interfere { abandon_at_with_cancel().boxed() } else { abandon_at().boxed() })
@@ -278,7 +279,7 @@ pub fn remap_op(op: &mut Op, fk: &dyn Fn(usize) -> usize, fb: &dyn Fn(usize) -> 
         }
         Op::ReadHash { addr } | Op::Exists { addr } | Op::RemoveHash { addr } => remap_addr(addr, fb),
         Op::Stream { by, .. } | Op::Extract { by, .. } => remap_by(by, fk, fb),
-        Op::List | Op::Clear | Op::IdxLs | Op::Chdir { .. } | Op::TmpElsewhere => {}
+        Op::List | Op::Clear | Op::IdxLs | Op::Chdir { .. } | Op::TmpElsewhere | Op::RemoveTarget { .. } => {}
         Op::PlantRecord { key, .. } => *key = fk(*key),
         Op::IdxInsert { key, fields } => {
             *key = fk(*key);
